@@ -52,11 +52,16 @@ def roll_mux(window, stride):
                 elif isinstance(i, rs.OnCompletedMux):                    
                     kindex = i.key[0]
                     i.store.set_state(state_n, (kindex, i.key), 0)
+                    # close the remaining windows in the order they were opened
+                    opened = []
                     for offset in range(density):
                         index = i.key[0] * density + offset
-                        if i.store.get_state(state_w, (index, i.key)) != -1:
-                            observer.on_next(i._replace(key=(index, i.key)))
-                            i.store.set_state(state_w, (index, i.key), -1)
+                        w_value = i.store.get_state(state_w, (index, i.key))
+                        if w_value != -1:
+                            opened.append((w_value, index))
+                    for _, index in sorted(opened):
+                        observer.on_next(i._replace(key=(index, i.key)))
+                        i.store.set_state(state_w, (index, i.key), -1)
                     outer_observer.on_next(i)
                 elif isinstance(i, rs.OnErrorMux):
                     kindex = i.key[0]
